@@ -463,11 +463,14 @@ func c01DynType(rt *rapid.T, depth int) reflect.Type {
 	}
 	k := 0
 	if depth > 0 {
-		k = rapid.IntRange(0, 6).Draw(rt, "tkind")
+		k = c01Pick(rt, "tkind", 7)
+		if depth == 3 && k < 2 {
+			k = 2 + c01Pick(rt, "tkind-top", 5) // the top level of a constructed type is composite
+		}
 	}
 	switch k {
 	case 0, 1:
-		return leaves[rapid.IntRange(0, len(leaves)-1).Draw(rt, "leaf")]
+		return leaves[c01Pick(rt, "leaf", len(leaves))]
 	case 2:
 		return reflect.SliceOf(c01DynType(rt, depth-1))
 	case 3:
@@ -662,14 +665,25 @@ func c01GenValue(rt *rapid.T, v reflect.Value) {
 	}
 }
 
+// c01Pick draws an index in [0,n) without rapid's bias towards small values
+// (a drawn word is mixed before the reduction), so that every type of the family
+// gets an equal share.
+func c01Pick(rt *rapid.T, label string, n int) int {
+	x := rapid.Uint64().Draw(rt, label)
+	x += 0x9e3779b97f4a7c15
+	x = (x ^ (x >> 30)) * 0xbf58476d1ce4e5b9
+	x = (x ^ (x >> 27)) * 0x94d049bb133111eb
+	x ^= x >> 31
+	return int(x % uint64(n))
+}
+
 // c01DrawType picks a type: mostly from the fixed family, sometimes a freshly
 // constructed one.
 func c01DrawType(rt *rapid.T) (reflect.Type, string) {
-	if rapid.IntRange(0, 6).Draw(rt, "dyn") == 0 {
+	if c01Pick(rt, "dyn", 5) == 0 {
 		return c01DynType(rt, 3), "dyn"
 	}
-	i := rapid.IntRange(0, len(c01Family)-1).Draw(rt, "type")
-	return c01Family[i], "fixed"
+	return c01Family[c01Pick(rt, "type", len(c01Family))], "fixed"
 }
 
 // ---------------------------------------------------------------------------
